@@ -710,3 +710,141 @@ impl StoredPoint {
             r matches Err(UpdateError::Failed(_)) ==> !P::PubPoint::infallible() || io_failure(),
     { unimplemented!() }
 }
+
+// ---------------------------------------------------------------- std functions without a vstd specification (assumed: their std definitions)
+pub assume_specification<T: core::marker::Destruct> [Option::<T>::or] (a: Option<T>, b: Option<T>) -> (r: Option<T>)
+    ensures r == (if a is Some { a } else { b });
+pub assume_specification<T: core::marker::Destruct, U: core::marker::Destruct> [Option::<T>::and] (a: Option<T>, b: Option<U>) -> (r: Option<U>)
+    ensures r == (if a is Some { b } else { None::<U> });
+pub assume_specification<T: core::marker::Destruct> [Option::<T>::xor] (a: Option<T>, b: Option<T>) -> (r: Option<T>)
+    ensures r == (if a is Some && b is None { a } else if a is None && b is Some { b } else { None::<T> });
+pub assume_specification<T: core::marker::Destruct, P: FnOnce(&T) -> bool + core::marker::Destruct> [Option::<T>::filter] (a: Option<T>, p: P) -> (r: Option<T>)
+    requires a matches Some(v) ==> p.requires((&v,)),
+    ensures
+        a is None ==> r is None,
+        a matches Some(v) ==> (p.ensures((&v,), true) ==> r == a) && (p.ensures((&v,), false) ==> r is None) && (r is None || r == a);
+pub assume_specification<T, U: core::marker::Destruct, F: FnOnce(T) -> U + core::marker::Destruct> [Option::<T>::map_or] (a: Option<T>, d: U, f: F) -> (r: U)
+    requires a matches Some(v) ==> f.requires((v,)),
+    ensures a is None ==> r == d, a matches Some(v) ==> f.ensures((v,), r);
+pub assume_specification<T, E, U, F: FnOnce(T) -> Result<U, E> + core::marker::Destruct> [Result::<T, E>::and_then] (a: Result<T, E>, f: F) -> (r: Result<U, E>)
+    requires a matches Ok(v) ==> f.requires((v,)),
+    ensures a matches Err(e) ==> r == Err::<U, E>(e), a matches Ok(v) ==> f.ensures((v,), r);
+pub assume_specification<T: core::marker::Destruct, E: core::marker::Destruct> [Result::<T, E>::unwrap_or] (a: Result<T, E>, d: T) -> (r: T)
+    ensures r == (match a { Ok(v) => v, Err(_) => d });
+pub assume_specification<T, E, F: FnOnce(E) -> T + core::marker::Destruct> [Result::<T, E>::unwrap_or_else] (a: Result<T, E>, f: F) -> (r: T)
+    requires a matches Err(e) ==> f.requires((e,)),
+    ensures a matches Ok(v) ==> r == v, a matches Err(e) ==> f.ensures((e,), r);
+pub assume_specification<T: core::marker::Destruct, E: core::marker::Destruct, F: FnOnce(T) -> bool + core::marker::Destruct> [Result::<T, E>::is_ok_and] (a: Result<T, E>, f: F) -> (r: bool)
+    requires a matches Ok(v) ==> f.requires((v,)),
+    ensures a is Err ==> !r, a matches Ok(v) ==> f.ensures((v,), r);
+pub assume_specification<T: Ord + core::marker::Destruct> [std::cmp::max] (a: T, b: T) -> (r: T)
+    ensures T::obeys_cmp_spec() ==> r == (if a.cmp_spec(&b) == Ordering::Greater { a } else { b });
+
+// ---------------------------------------------------------------- further accessors of the env types used in engine.rs
+impl KeyIdentifier {
+    pub uninterp spec fn id(&self) -> int;
+}
+impl PartialEqSpecImpl for KeyIdentifier {
+    open spec fn obeys_eq_spec() -> bool { true }
+    open spec fn eq_spec(&self, other: &KeyIdentifier) -> bool { self.id() == other.id() }
+}
+impl PartialEq for KeyIdentifier {
+    #[verifier::external_body]
+    fn eq(&self, other: &Self) -> bool { unimplemented!() }
+}
+impl PartialEqSpecImpl for Serial {
+    open spec fn obeys_eq_spec() -> bool { true }
+    open spec fn eq_spec(&self, other: &Serial) -> bool { *self == *other }
+}
+impl PartialEq for Serial {
+    #[verifier::external_body]
+    fn eq(&self, other: &Self) -> bool { unimplemented!() }
+}
+impl Cert {
+    pub uninterp spec fn ski_spec(&self) -> KeyIdentifier;
+    #[verifier::external_body]
+    pub fn subject_key_identifier(&self) -> (r: KeyIdentifier) ensures r == self.ski_spec() { unimplemented!() }
+    #[verifier::external_body]
+    pub fn ca_repository(&self) -> (r: Option<&RsyncUri>) { unimplemented!() }
+    #[verifier::external_body]
+    pub fn rpki_manifest(&self) -> (r: Option<&RsyncUri>) { unimplemented!() }
+    #[verifier::external_body]
+    pub fn rpki_notify(&self) -> (r: Option<&HttpsUri>) { unimplemented!() }
+}
+impl ResourceCert {
+    #[verifier::external_body]
+    pub fn validity(&self) -> (r: Validity) { unimplemented!() }
+    #[verifier::external_body]
+    pub fn rpki_notify(&self) -> (r: Option<&HttpsUri>) { unimplemented!() }
+    #[verifier::external_body]
+    pub fn as_cert(&self) -> (r: &Cert) ensures *r == self.cert_spec() { unimplemented!() }
+}
+impl Validity {
+    #[verifier::external_body]
+    pub fn not_after(self) -> (r: Time) { unimplemented!() }
+    #[verifier::external_body]
+    pub fn not_before(self) -> (r: Time) { unimplemented!() }
+    #[verifier::external_body]
+    pub fn trim(self, other: Validity) -> (r: Validity) { unimplemented!() }
+}
+impl Clone for Validity {
+    #[verifier::external_body]
+    fn clone(&self) -> (r: Validity) ensures r == *self { unimplemented!() }
+}
+impl Copy for Validity {}
+impl Time {
+    #[verifier::external_body]
+    pub fn now() -> (r: Time) { unimplemented!() }
+}
+impl Manifest {
+    #[verifier::external_body]
+    pub fn content(&self) -> (r: &ManifestContent) { unimplemented!() }
+}
+impl ManifestContent {
+    #[verifier::external_body]
+    pub fn this_update(&self) -> (r: Time) { unimplemented!() }
+    #[verifier::external_body]
+    pub fn manifest_number(&self) -> (r: Serial) { unimplemented!() }
+    #[verifier::external_body]
+    pub fn is_empty(&self) -> (r: bool) { unimplemented!() }
+}
+impl MftItem {
+    #[verifier::external_body]
+    pub fn into_pair(self) -> (r: (Bytes, Bytes)) ensures r.0 == self.file_spec(), r.1 == self.hash_spec() { unimplemented!() }
+}
+impl Crl {
+    #[verifier::external_body]
+    pub fn this_update(&self) -> (r: Time) { unimplemented!() }
+}
+impl RsyncUri {
+    #[verifier::external_body]
+    pub fn relative_to(&self, base: &RsyncUri) -> (r: Option<&[u8]>) { unimplemented!() }
+    #[verifier::external_body]
+    pub fn as_str(&self) -> (r: &str) { unimplemented!() }
+}
+impl LogBookWriter {
+    #[verifier::external_body]
+    pub fn error(&mut self, args: FmtArgs) { unimplemented!() }
+}
+impl StoredPoint {
+    #[verifier::external_body]
+    pub fn reject(&mut self) -> (r: Result<(), Failed>)
+        ensures r is Err ==> io_failure(),
+    { unimplemented!() }
+}
+impl Bytes {
+    #[verifier::external_body]
+    pub fn len(&self) -> (r: usize) { unimplemented!() }
+    #[verifier::external_body]
+    pub fn is_empty(&self) -> (r: bool) { unimplemented!() }
+}
+impl<'a> CollectorRun<'a> {
+    #[verifier::external_body]
+    pub fn load_ta(&self, uri: &TalUri) -> (r: Option<Bytes>) { unimplemented!() }
+}
+impl<'a> StoreRun<'a> {
+    #[verifier::external_body]
+    pub fn load_ta(&self, uri: &TalUri) -> (r: Result<Option<Bytes>, Failed>)
+        ensures r is Err ==> io_failure(),
+    { unimplemented!() }
+}
